@@ -112,7 +112,7 @@ SPECS = {
     thorough=[S('S%d' % l, 0, M_G, og('CORE'), W, ['--strategies']) for l in (1, 2, 3, 4, 5, 255)] + [S('S3_%d' % l, 0, mf('GUARD_CANCEL', 'GUARD_REQ'), og('CORE'), W, ['--strategies'], share=3.0) for l in (1, 2, 3)] +
              [S('T1', 4, M_G, og('CORE'), W), S('T8', 4, M_G, og('CORE'), W), S('T2', 3, M_G, og('CORE', 'MANUAL'), W), S('T1', 3, M_T, O_T, W)]),
  'C05': dict(
-    quick=[S('T1t', 2, M_T, O_T), S('P5t', 1, M_P0, O_P | og('REACT', 'QUERY')), S('N8', 1, M_T, O_T, flags=['--ids=0,3,4,7']), S('N5', 1, M_T, O_T), S('N7p', 1, M_P0, O_P | og('REACT', 'QUERY'), flags=['--ids=0,3,6']), S('T1', 2, M_T, O_T), S('T2', 2, M_TP, O_T | og('MANUAL')), S('T3', 3, M_T, O_T), S('P3', 2, M_P, O_P | og('REACT', 'QUERY')), S('P5', 1, M_P, O_P | og('REACT', 'QUERY')), S('T4', 1, M_T, O_T)],
+    quick=[S('I1', 1, M_T, O_T), S('I2', 2, M_T, O_T), S('I4', 1, M_P0, O_P | og('REACT')), S('T1t', 2, M_T, O_T), S('P5t', 1, M_P0, O_P | og('REACT', 'QUERY')), S('N8', 1, M_T, O_T, flags=['--ids=0,3,4,7']), S('N5', 1, M_T, O_T), S('N7p', 1, M_P0, O_P | og('REACT', 'QUERY'), flags=['--ids=0,3,6']), S('T1', 2, M_T, O_T), S('T2', 2, M_TP, O_T | og('MANUAL')), S('T3', 3, M_T, O_T), S('P3', 2, M_P, O_P | og('REACT', 'QUERY')), S('P5', 1, M_P, O_P | og('REACT', 'QUERY')), S('T4', 1, M_T, O_T)],
     thorough=[S('T1', 3, M_T, O_T, W), S('T2', 3, M_TP, O_T | og('MANUAL'), W), S('T3', 4, M_T, O_T), S('T4', 2, M_T, O_T, W), S('P3', 3, M_P, O_P | og('REACT', 'QUERY'), W), S('P5', 2, M_P, O_P | og('REACT', 'QUERY'), W), S('I1', 2, M_T, O_T, W)]),
  'C06': dict(
     quick=[S('T1r', 2, M_T, O_T), S('P5h', 1, M_P0, O_P | og('SERIAL', 'QUERY')), S('T1t', 2, M_T, O_T | og('REPLAY')), S('T2t', 2, M_TP, O_T | og('PAYLOAD', 'MANUAL')), S('P5t', 1, M_PG, O_P | og('REACT', 'QUERY')), S('N8', 2, M_T, O_T | og('REPLAY'), flags=['--ids=0,3,4,7']), S('N5', 1, M_T, O_T), S('T1', 2, M_T, O_T | og('REPLAY')), S('T2', 2, M_TP, O_T | og('PAYLOAD', 'MANUAL', 'REPLAY', 'SERIAL')), S('T9', 2, M_TP, O_T | og('PAYLOAD')), S('T3', 3, M_T, O_T), S('P5', 1, M_PG, O_P | og('REACT', 'QUERY')), S('T4', 1, M_T, O_T), S('I1', 1, M_T | mf('INJ_DECIDE'), O_T), S('T1', 2, M_TC, og('CORE')), S('A2', 1, mf('PHASE_REQ', 'GUARD_CANCEL', 'REPORT', 'PLAN_EDIT', 'PAYLOAD'), og('CORE', 'PLAN', 'REPORT', 'MANUAL', 'SERIAL', 'REPLAY', 'COPY', 'DESTROY', 'PAYLOAD', 'LOG')), S('A1', 0, mf('PHASE_REQ', 'GUARD_CANCEL', 'REPORT', 'PLAN_EDIT', 'PAYLOAD'), og('CORE', 'PLAN', 'REPORT', 'MANUAL', 'SERIAL', 'REPLAY', 'COPY', 'DESTROY', 'PAYLOAD', 'LOG'))],
@@ -243,7 +243,11 @@ def fsmx_check(prop, tier):
     V.assumptions = ['callbacks take at most one action per invocation (two for cancel+redirect); at most dev_bound non-default decisions per API call',
                      'histories respect the asserted preconditions of the library (DESIGN.md 4.3)',
                      'the canonical state key covers every named field of CoreT (checked indirectly: every state is re-derived from its witness history on a fresh instance)']
-    run_specs(V, SPECS[prop][tier], tier)
+    specs = list(SPECS[prop][tier])
+    if tier == 'thorough':   # the thorough tier contains the quick tier: whatever the quick run can report, the thorough run reports too
+        have = set((sp['cfg'], sp['mf'], sp['og'], tuple(sp['flags']), sp['variant']) for sp in specs)
+        specs += [sp for sp in SPECS[prop]['quick'] if (sp['cfg'], sp['mf'], sp['og'], tuple(sp['flags']), sp['variant']) not in have]
+    run_specs(V, specs, tier)
     if prop in POST_HOOKS: POST_HOOKS[prop](V, tier)
     return V.finish(rule='breadth-first closure over canonical machine states; from each state every in-contract API call x every vector of callback decisions with at most dev_bound deviations is executed on the real code; a trace shape is the sequence of (event kind, state, method)')
 
